@@ -9,15 +9,15 @@ PROP = {
     "engines": ["crash"],
     "lean_modules": ["AxVerif.Model.Durable", "AxVerif.Model.Recovery", "AxVerif.Model.Journal", "AxVerif.Lemmas.Recovery", "AxVerif.Lemmas.RecoveryR1", "AxVerif.Lemmas.Journal"],
     "rule": 'one case = one workload (DDL, autocommit INSERT/UPDATE/DELETE, batches, committed / rolled-back / still-open sessions, failing statements, checkpoints, VACUUM, DROP TABLE; cache 10000, or 8-16 frames with wide rows so that dirty pages are evicted between checkpoints) executed once under the I/O tap; every prefix of the mutation stream after which the file image differs is a crash point (at most 90 per case, those adjacent to fsync/truncate/call/return always kept); each image is opened, read back, closed, reopened, probed; for C08 up to 8 crash points per case are nested (the recovery of the image is itself run under the tap and crashed at every mutation); up to 45 points per case are also observed under the second crash model (of every file only what was written before its last fsync survives). Families: 40% clean region, 10% each open_txn, rb_update, no_init_ckpt, drop_table, vacuum, 5% steal, 5% big_log. Non-trivial = every workload (each has >= 4 units and >= 10 crash points); distinct = distinct case line.',
-    "assumptions": ['crash model A: a crash preserves exactly a prefix of the issued write/truncate calls, each atomic (no reordering, no torn single write); crash model B (observed, not part of the journal theorem): of every file only what had been written before its last fsync survives', 'workloads are stepped from one thread; units touch disjoint rows, so log-order redo and commit-order application coincide', 'tables have the shape (id BIGINT, v INT) or (id BIGINT, v INT, pad TEXT); DDL = CREATE/DROP TABLE; crash points before Database::create has returned are not explored', 'page contents are abstract in the journal model (Model/Journal.lean): the B+tree structure inside the pages is observed through contents and probe only'],
-    "partial": 'Partial: the stable store of the recovery model is logical; the page-level journal theorem is proved for crash model A; rolled-back UPDATE/DELETE is a listed finding of C03 seen through the live comparison.',
-    "trusted": ['I/O tap in DBFile (feature verif): every create/write/set_len/sync/remove is reported in issue order', 'image rebuilder of the harness (applies the first k events to in-memory files and writes them to a scratch directory)'],
+    "assumptions": ['crash model A: a crash preserves exactly a prefix of the issued write/truncate calls, each atomic (no reordering, no torn single write); crash model B: of every file only what had been written before its last fsync is sure to survive (page level: restore_returns_checkpoint_lossy for any mix of written and synced page contents; log: the volatile tail `buf` of the recovery model; journal entries: any prefix k of the unsynced ones; journal header writes are taken as atomic and durable, each being followed by its fsync inside the same call)', 'workloads are stepped from one thread; units touch disjoint rows, so log-order redo and commit-order application coincide', 'tables have the shape (id BIGINT, v INT) or (id BIGINT, v INT, pad TEXT); DDL = CREATE/DROP TABLE; crash points before Database::create has returned are not explored', 'page contents are abstract in the journal model (Model/Journal.lean): the B+tree structure inside the pages is observed through contents and probe only'],
+    "partial": 'Partial: the stable store of the recovery model is logical; the page-level journal theorems are tied to the code through the rule check on the real I/O trace; rolled-back UPDATE/DELETE is a listed finding of C03 seen through the live comparison.',
+    "trusted": ['I/O tap in DBFile (feature verif): every create/write/set_len/sync/remove is reported in issue order', 'image rebuilder of the harness (applies the first k events to in-memory files and writes them to a scratch directory; for crash model B it leaves out, per file, what was written after its last fsync)', 'trace tokenizer of the harness (page numbers from write offsets; `=` / `!` = byte comparison of a saved page image with the database file as of the last journal start)', 'the recovery protocol model and the journal model are hand-written; what ties them to the Rust is the judge over real crash images and the rule check `Journal.accepts` / `checkR1` on the real I/O trace'],
 }
 
 TEXT = {
     "text": 'Theorems (Lean, unbounded): a transaction that is not a winner of the durable log (open, rolled back, failed, COMMIT not forced) leaves no trace — recovery equals recovery of the history with it erased (loser_leaves_no_trace, only_committed_contribute); a transaction whose COMMIT is durable has all its records durable (crash_shows_whole_transactions_only). Tie: at every explored crash point of real workloads the recovered contents must contain nothing beyond the acknowledged units plus, as a whole, the one in flight.',
     "design_ref": "DESIGN.md §5 C01/C02/C08",
     "note": "Trusted: Lean kernel + propext/Quot.sound/Classical.choice; the protocol model is hand-written (validated by the judge on real crash images, not verified against the Rust); "
-            "crash model A = prefix of atomic writes (B observed only); " + PROP["partial"],
+            "crash models A (prefix of atomic writes) and B (unsynced writes may be lost); " + PROP["partial"],
     "technique": "Lean 4 invariant proof over a WAL protocol machine + verified judge over real crash images (I/O tap)",
 }
